@@ -52,6 +52,9 @@ package builder
 //@   requires bcInv(bc) && bc.request.CurrentState != nil
 //@   ensures nothing-is-executing: bc.executionCancellation == nil && bc.executionUpdates == nil
 //@   ensures reports-idle: isIdle(bc)
+//@   at call dyn#1 assume_post bc.executionUpdates == old(bc.executionUpdates) -- the cancellation function is a context.CancelFunc: it does not write fields of the client
+//@   loop 0 invariant bc.executionUpdates == old(bc.executionUpdates) && bc == old(bc)
+//@   ensures cancelled-action-has-fully-stopped: old(bc.executionCancellation) != nil ==> closed(old(bc.executionUpdates))
 
 //@ func (*BuildClient).applyExecutionUpdate
 //@   props C08
@@ -100,6 +103,7 @@ package builder
 //@             isIdle(bc) && bc.schedulerMayThinkExecutingUntil != nil ==> bc.request.PreferBeingIdle
 //@   at call Synchronize#1 assert reports-current-state: arg2 == &bc.request
 //@   ensures inv: bcInv(bc)
+//@   ensures may-not-terminate-means-possibly-executing: !r0 ==> bc.schedulerMayThinkExecutingUntil != nil
 
 // ---------------------------------------------------------------------------
 // Each action runs isolated and leaves nothing behind (C12)
